@@ -638,9 +638,9 @@ Proof.
   - inversion H; subst. rewrite !Z.eqb_refl. cbn. apply IH. reflexivity.
 Qed.
 Lemma elem_eqb_parts x y : elem_eqb x y = true <->
-  efeat x = efeat y /\ edata x = edata y /\ elocs x = elocs y /\ meta_eqb (emeta x) (emeta y) = true.
+  efeat x = efeat y /\ edata x = edata y /\ elocs x = elocs y /\ meta_eqb (emeta x) (emeta y) = true /\ eminus x = eminus y.
 Proof.
-  unfold elem_eqb. rewrite !andb_true_iff, eqb_true_iff, str_eqb_eq, locs_eqb_eq. tauto.
+  unfold elem_eqb. rewrite !andb_true_iff, !eqb_true_iff, str_eqb_eq, locs_eqb_eq. tauto.
 Qed.
 Lemma elem_eqb_equiv :
   (forall x, meta_ok x = true -> elem_eqb x x = true) /\
@@ -649,9 +649,9 @@ Lemma elem_eqb_equiv :
 Proof.
   repeat split.
   - intros x Hx. apply elem_eqb_parts. repeat split; try reflexivity. apply meta_eqb_refl, Hx.
-  - intros x y Hx Hy H. apply elem_eqb_parts in H. destruct H as (H1 & H2 & H3 & H4). apply elem_eqb_parts.
+  - intros x y Hx Hy H. apply elem_eqb_parts in H. destruct H as (H1 & H2 & H3 & H4 & H5). apply elem_eqb_parts.
     repeat split; try congruence. apply meta_eqb_sym; assumption.
-  - intros x y z H1 H2. apply elem_eqb_parts in H1, H2. destruct H1 as (A1 & A2 & A3 & A4), H2 as (B1 & B2 & B3 & B4).
+  - intros x y z H1 H2. apply elem_eqb_parts in H1, H2. destruct H1 as (A1 & A2 & A3 & A4 & A5), H2 as (B1 & B2 & B3 & B4 & B5).
     apply elem_eqb_parts. repeat split; try congruence. eapply meta_eqb_trans; eassumption.
 Qed.
 Lemma elem_ok_meta_ok f x : elem_ok f x = true -> meta_ok x = true.
